@@ -1,0 +1,64 @@
+//go:build verif
+
+package mp4
+
+// Property C03 (encoder half): Encode(w io.Writer) and EncodeSW(sw) of the same structure produce the same output.
+//
+// Both writers carry an abstract trace ghost(x).tr of the chunks written so far (see abs.go in /verif/govc): fixed-width
+// integers chU(width, v), byte strings chBytes(s), and chEnc(box) = "the encoding of that box". For every type whose two
+// encoders are written separately, both are proved to extend the trace by the same spec function of the structure.
+// Encoders that follow the pattern "EncodeSW into a fresh writer of Size() bytes, then w.Write(sw.Bytes())" are proved to
+// hand exactly the bytes EncodeSW produced to w (wrapper contract below).
+//
+// Definitional (assumed at call sites, never proved): a dynamic child.Encode(w) / child.EncodeSW(sw) extends the trace by
+// chEnc(child); EncodeHeader extends it by the same two chunks EncodeHeaderSW writes (size as 32-bit integer, type string).
+
+//@ spec trHdr(t uint64, size uint32, typ string) uint64 = trApp(trApp(t, chU(32, size)), chBytes(typ))
+//@ spec rec trKids(cs []Box, n int, t uint64) uint64 = ite(n <= 0, t, trApp(trKids(cs, n-1, t), chEnc(cs[n-1])))
+
+//@ schema boxEncode method ^Encode$ except ^(Fragment|MediaSegment|File|InitSegment|\w+Descriptor)\.
+//@   requires p1 != nil && boxOK(p0)
+//@   ensures[C02] result == nil ==> ghost(p1).wlen == old(ghost(p1).wlen) + int(p0.Size())
+//@   defines[C03] result == nil ==> ghost(p1).tr == trApp(old(ghost(p1).tr), chEnc(p0))
+//@   assigns ghost(p1).wlen, ghost(p1).wz, ghost(p1).wlegal, ghost(p1).wesc, ghost(p1).wtight, ghost(p1).pay, ghost(p1).plen, ghost(p1).wdata, ghost(p1).tr
+
+//@ func EncodeHeader
+//@   requires w != nil && b != nil
+//@   ensures[C02] result == nil ==> ghost(w).wlen == old(ghost(w).wlen) + 8
+//@   defines[C03] result == nil ==> ghost(w).tr == trHdr(old(ghost(w).tr), uint32(b.Size()), b.Type())
+//@   assigns ghost(w).wlen, ghost(w).wz, ghost(w).wlegal, ghost(w).wesc, ghost(w).wtight, ghost(w).pay, ghost(w).plen, ghost(w).wdata, ghost(w).tr
+
+// ---- plain containers
+//@ func EncodeContainerSW
+//@   ensures[C03] result == nil && sw.(*bits.FixedSliceWriter).accError == nil ==> ghost(sw).tr == trKids(c.GetChildren(), len(c.GetChildren()), trHdr(old(ghost(sw).tr), uint32(c.Size()), c.Type()))
+//@   loop 1 invariant sw.(*bits.FixedSliceWriter).accError == nil ==> ghost(sw).tr == trKids(c.GetChildren(), idx(1), trHdr(old(ghost(sw).tr), uint32(c.Size()), c.Type()))
+
+//@ func EncodeContainer
+//@   requires w != nil && c != nil
+//@   requires c.Size() == 8 + sizeSum(c.GetChildren(), len(c.GetChildren()))
+//@   requires kidsOK(c.GetChildren())
+//@   ensures[C02] result == nil ==> ghost(w).wlen == old(ghost(w).wlen) + int(c.Size())
+//@   ensures[C03] result == nil ==> ghost(w).tr == trKids(c.GetChildren(), len(c.GetChildren()), trHdr(old(ghost(w).tr), uint32(c.Size()), c.Type()))
+//@   assigns ghost(w).wlen, ghost(w).wz, ghost(w).wlegal, ghost(w).wesc, ghost(w).wtight, ghost(w).pay, ghost(w).plen, ghost(w).wdata, ghost(w).tr
+//@   loop 1 invariant idx(1) <= len(c.GetChildren())
+//@   loop 1 invariant ghost(w).wlen == old(ghost(w).wlen) + 8 + int(sizeSum(c.GetChildren(), idx(1)))
+//@   loop 1 invariant ghost(w).tr == trKids(c.GetChildren(), idx(1), trHdr(old(ghost(w).tr), uint32(c.Size()), c.Type()))
+
+// encOK(w): the writer reports no accumulated error (slice writers); io.Writers report errors through the result only.
+//@ pred encOK(w io.Writer) = typeis(w, "*bits.FixedSliceWriter") ==> w.(*bits.FixedSliceWriter).accError == nil
+
+// One schema per family of types applies the SAME trace specification to Encode and to EncodeSW of each type.
+//@ schema containerEnc method ^Encode(SW)?$ only ^(GenericContainerBox|DinfBox|EdtsBox|IlstBox|LudtBox|MdiaBox|MfraBox|MinfBox|MoovBox|MvexBox|SchiBox|SinfBox|StblBox|TrafBox|TrakBox|TrefBox|UdtaBox|VttcBox)\.
+//@   ensures[C03] result == nil && encOK(p1) ==> ghost(p1).tr == trKids(p0.Children, len(p0.Children), trHdr(old(ghost(p1).tr), uint32(p0.Size()), p0.Type()))
+
+// ---- canonical wrappers: Encode = EncodeSW into a fresh writer of Size() bytes, then one Write of its bytes.
+// Trace model facts used: a fresh slice writer has the empty trace; Bytes() of a writer without accumulated error is the
+// flattening of its trace; flattening a one-chunk trace is that chunk (assumed below, true of byte strings).
+// Boxes of 2^48 bytes or more cannot be allocated; the wrappers are proved for smaller ones.
+//@ schema wrapperEnc method ^Encode$ only ^(AvcCBox|BtrtBox|CdatBox|ClapBox|Co64Box|CoLLBox|ColrBox|CslgBox|CttsBox|Dac3Box|Dec3Box|ElngBox|ElstBox|EmsgBox|EsdsBox|EvteBox|SilbBox|EmibBox|DataBox|FreeBox|FrmaBox|FtypBox|HdlrBox|KindBox|LevaBox|LoudnessBaseBox|MdhdBox|MehdBox|MfhdBox|MfroBox|MimeBox|MvhdBox|NmhdBox|PaspBox|PrftBox|PsshBox|SaioBox|SaizBox|SbgpBox|SchmBox|SdtpBox|SgpdBox|SidxBox|SmDmBox|SmhdBox|SsixBox|StcoBox|SthdBox|StppBox|StscBox|StssBox|StszBox|SttsBox|StypBox|SubsBox|TencBox|TfdtBox|TfhdBox|TfraBox|TkhdBox|TrefTypeBox|TrexBox|TrunBox|UnknownBox|URLBox|UUIDBox|VmhdBox|VppCBox|VttCBox|VlabBox|VsidBox|CtimBox|IdenBox|SttgBox|PaylBox|VttaBox)\.
+//@   assumes p0.Size() <= 1<<48
+//@   assumes forall c uint64 :: trFlat(trApp(trEmpty(), c)) == c
+//@   ensures[C03] result == nil ==> ghost(p1).tr == trApp(old(ghost(p1).tr), chEnc(p0))
+// their EncodeSW ends in "return sw.AccError()": success means no accumulated writer error
+//@ schema leafEncodeSW method ^EncodeSW$ only ^(AvcCBox|BtrtBox|CdatBox|ClapBox|Co64Box|CoLLBox|ColrBox|CslgBox|CttsBox|Dac3Box|Dec3Box|ElngBox|ElstBox|EmsgBox|EsdsBox|EvteBox|SilbBox|EmibBox|DataBox|FreeBox|FrmaBox|FtypBox|HdlrBox|KindBox|LevaBox|LoudnessBaseBox|MdhdBox|MehdBox|MfhdBox|MfroBox|MimeBox|MvhdBox|NmhdBox|PaspBox|PrftBox|PsshBox|SaioBox|SaizBox|SbgpBox|SchmBox|SdtpBox|SgpdBox|SidxBox|SmDmBox|SmhdBox|SsixBox|StcoBox|SthdBox|StppBox|StscBox|StssBox|StszBox|SttsBox|StypBox|SubsBox|TencBox|TfdtBox|TfhdBox|TfraBox|TkhdBox|TrefTypeBox|TrexBox|TrunBox|UnknownBox|URLBox|UUIDBox|VmhdBox|VppCBox|VttCBox|VlabBox|VsidBox|CtimBox|IdenBox|SttgBox|PaylBox|VttaBox)\.
+//@   ensures result == nil ==> p1.(*bits.FixedSliceWriter).accError == nil
